@@ -19,6 +19,8 @@ Extension (text reporter lib/reporters.go:57-139, report loop report.go:136-166;
   text_report_order_independent  … and does not depend on the order of the results (errors as a set)
   periodic_reports_are_prefix_reports   every report the command's loop writes is the reference report of a prefix
   final_report_independent_of_ticks / final_report_eq_ref   the final one is the same for every tick placement
+  loop_reports_exact           the list of reports written = reference reports over exactly the prefixes read before each
+  json_report_layout / json_report_shows_metrics   the JSON report: documented members in order, each the stated field
 -/
 import Vegeta.Model.Metrics
 import Vegeta.Spec.Metrics
@@ -1302,5 +1304,92 @@ theorem final_report_eq_ref (rs : List Result) (hd : Domain rs) (evs : List Ev) 
 /-- The loop does finish: after the records and one more `Decode` (io.EOF), with any ticks in between. -/
 example : (loopRun sample [.tick, .decode, .tick, .tick, .decode, .decode, .tick, .decode]).done = true ∧
     (loopRun sample [.tick, .decode, .tick, .tick, .decode, .decode, .tick, .decode]).out.length = 5 := by decide +kernel
+
+
+/-! ## Extension: the exact sequence of reports of the report command, and the JSON layout -/
+
+/-- For every report the loop writes, the number of records decoded before it: `k` records read so far,
+`rem` records left in the input. -/
+def reportPoints : Nat → Nat → List Ev → List Nat
+  | _, _, [] => []
+  | k, rem, .tick :: es => k :: reportPoints k rem es
+  | k, _, .interrupt :: _ => [k]
+  | k, 0, .decode :: _ => [k]
+  | k, rem+1, .decode :: es => reportPoints (k+1) rem es
+
+theorem aux_done_fixed (evs : List Ev) (s : Loop) (h : s.done = true) : evs.foldl loopStep s = s := by
+  induction evs with
+  | nil => rfl
+  | cons e t ih => simp only [List.foldl_cons, loopStep, h, ↓reduceIte]; exact ih
+
+theorem aux_loop_exact (rs : List Result) (hd : Domain rs) (evs : List Ev) : ∀ (s : Loop) (ops : List Op),
+    s.done = false → s.m = run Metrics.init ops → adds ops ++ s.input = rs →
+    (evs.foldl loopStep s).out = s.out ++ (reportPoints (adds ops).length s.input.length evs).map (fun k => ref (rs.take k)) := by
+  induction evs with
+  | nil => intro s ops _ _ _; simp [reportPoints]
+  | cons e t ih =>
+    intro s ops hdone hm hin
+    have hrep : report (close s.m) = ref (rs.take (adds ops).length) := by
+      rw [hm, incremental_report_eq_ref ops (aux_domain_prefix _ s.input (by rw [hin]; exact hd))]
+      congr 1
+      rw [← hin, List.take_left]
+    have hw : ∀ d, ({ writeReport s with done := d } : Loop).out = s.out ++ [ref (rs.take (adds ops).length)] := by
+      intro d; simp [writeReport, hrep]
+    simp only [List.foldl_cons]
+    cases e with
+    | interrupt =>
+      have e1 : loopStep s .interrupt = { writeReport s with done := true } := by simp [loopStep, hdone]
+      rw [e1, aux_done_fixed t _ rfl, hw]; simp [reportPoints]
+    | tick =>
+      have e1 : loopStep s .tick = writeReport s := by simp [loopStep, hdone]
+      rw [e1, ih (writeReport s) (ops ++ [.close]) (by simp [writeReport, hdone])
+        (by simp only [writeReport, aux_run_snoc, step, hm])
+        (by simp only [writeReport, aux_adds_append, adds, List.append_nil]; exact hin)]
+      simp only [aux_adds_append, adds, List.append_nil, reportPoints, List.map_cons]
+      have : (writeReport s).out = s.out ++ [ref (rs.take (adds ops).length)] := by simp [writeReport, hrep]
+      rw [this]; simp [writeReport]
+    | decode =>
+      cases hinput : s.input with
+      | nil =>
+        have e1 : loopStep s .decode = { writeReport s with done := true } := by simp [loopStep, hdone, hinput]
+        rw [e1, aux_done_fixed t _ rfl, hw]; simp [reportPoints]
+      | cons r rest =>
+        have e1 : loopStep s .decode = { s with m := add s.m r, input := rest } := by simp [loopStep, hdone, hinput]
+        rw [e1, ih { s with m := add s.m r, input := rest } (ops ++ [.add r]) (by simpa using hdone)
+          (by simp only [aux_run_snoc, step, hm])
+          (by simp only [aux_adds_append, adds, List.append_assoc, List.singleton_append]; rw [← hinput]; exact hin)]
+        simp [aux_adds_append, adds, reportPoints]
+
+/-- **The reports the command writes, exactly**: for every interleaving of ticks, decodes and an interrupt,
+the list of reports written (periodic ones, then the final one) is the list of reference reports over the
+prefixes read so far — the `j`-th report is over exactly the records decoded before it (`reportPoints`),
+repeated ticks give repeated identical reports, and nothing is written after the final report. -/
+theorem loop_reports_exact (rs : List Result) (hd : Domain rs) (evs : List Ev) :
+    (loopRun rs evs).out = (reportPoints 0 rs.length evs).map (fun k => ref (rs.take k)) := by
+  have := aux_loop_exact rs hd evs (Loop.start rs) [] rfl rfl (by simp [Loop.start, adds])
+  simpa [loopRun, Loop.start, adds] using this
+
+example : Domain sample ∧ reportPoints 0 3 [.tick, .decode, .tick, .tick, .decode, .decode, .tick, .decode, .tick] = [0, 1, 1, 3, 3] :=
+  ⟨{ ts_nonneg := by decide, lat_nonneg := by decide, end_fits := by decide, lat_sum := by decide,
+     in_sum := by decide, out_sum := by decide }, by decide⟩
+
+/-- **The JSON report has the documented layout**: exactly the documented members, in this order, each
+carrying the stated field of the closed metrics; the status-code object lists each code of the histogram
+once, in the byte-wise order of the decimal texts (as `encoding/json` sorts map keys); `errors` is the error
+set in insertion order. -/
+theorem json_report_layout (r : Report) (p50 p90 p95 p99 : Int) :
+    ∃ cs : List (Nat × Nat), cs.Perm r.statusCodes ∧ TextSorted cs ∧
+    (jsonReport r p50 p90 p95 p99).map (·.1) = jsonKeys ∧
+    (jsonReport r p50 p90 p95 p99).map (·.2) =
+      [ .int r.latTotal, .int r.latMean, .int p50, .int p90, .int p95, .int p99, .int r.latMax, .int r.latMin,
+        .nat r.bytesInTotal, .flt r.bytesInMean, .nat r.bytesOutTotal, .flt r.bytesOutMean,
+        .time r.earliest, .time r.latest, .time r.end_, .int r.duration, .int r.wait, .nat r.requests,
+        .flt r.rate, .flt r.throughput, .flt r.successRatio, .codes cs, .strs r.errors ] :=
+  ⟨sortByText r.statusCodes, (aux_sortByText _).1, (aux_sortByText _).2, rfl, rfl⟩
+
+/-- **Every JSON report the command writes shows the reference values** of the prefix read so far. -/
+theorem json_report_shows_metrics (ops : List Op) (hd : Domain (adds ops)) (p50 p90 p95 p99 : Int) :
+    jsonReport (report (close (run Metrics.init ops))) p50 p90 p95 p99 = jsonReport (ref (adds ops)) p50 p90 p95 p99 := by
+  rw [incremental_report_eq_ref ops hd]
 
 end Vegeta.Props.C10
